@@ -318,7 +318,7 @@ func (g *cstGen) eolws() string {
 }
 
 var cstIdents = []string{"a", "b", "x", "build", "test_all", "GLOBAL", "_p", "é", "日本", "naïve", "Ωmega", "ta", "tas", "tasks", "taskx", "t", "join", "exec", "clean", "default",
-	"בנה", "build_בנה", "имя", "λx", "ß", "×x"[2:], "نام", "ｆｕｌｌ", "𝒳"} // letters whose UTF-8 lead bytes cover 0xC3..0xF0, incl. 0xD7 (Hebrew), whose Latin-1 reading is not a letter
+	"בנה", "build_בנה", "имя", "λx", "ß", "×x"[2:], "نام", "ｆｕｌｌ", "𝒳", "РЕЛИЗ", "čas"} // letters whose UTF-8 lead bytes cover 0xC3..0xF0, incl. 0xD7 (Hebrew), whose Latin-1 reading is not a letter
 
 func (g *cstGen) ident() string {
 	s := cstIdents[g.r.Intn(len(cstIdents))]
@@ -328,7 +328,7 @@ func (g *cstGen) ident() string {
 	return s
 }
 
-var cstStrChars = []string{"a", "b", "z", " ", "*", ".", "/", "-", "_", "{", "}", "(", ")", ",", "#", ":", "=", "$", "'", "\\", "é", "日", "\t", "0", "9", ">", "<", "|", "&", ";", "%"}
+var cstStrChars = []string{"a", "b", "z", " ", "*", ".", "/", "-", "_", "{", "}", "(", ")", ",", "#", ":", "=", "$", "'", "\\", "é", "日", "\t", "0", "9", ">", "<", "|", "&", ";", "%", "\ufffd", "\u200b", "Р", "†", "😊"} // incl. a well-formed U+FFFD, a zero-width space, and runes whose low byte is that of an ASCII blank
 
 func (g *cstGen) str() string {
 	n := g.r.Intn(8)
@@ -974,6 +974,68 @@ func fmtCLI(spok, out string, seed int64, shard int, tier string, st *cstStats, 
 		if again.err != nil || sem(again.tree) != sem(want.tree) {
 			st.OracleFail["C07"]++
 			fmt.Fprintf(bo, "C07 %s the file written by `spok --fmt` (%q) does not define the same variables and tasks\n", hx(src), string(got))
+		}
+	}
+	if shard != 0 {
+		return
+	}
+	// big spokfiles through the command line (the properties have no size limit): (A) 1.2 MiB, mostly comments, with a variable
+	// and a documented task at the very end; (B) compact source below 1 MiB whose formatted text is above it
+	var a strings.Builder
+	a.WriteString("# head\ntask first() {\n    echo first\n}\n\n")
+	for i := 0; i < 20000; i++ {
+		fmt.Fprintf(&a, "# filler line %05d .........................................\n", i)
+	}
+	a.WriteString("# the last free comment\n\nOUT := \"x\"\n\n# doc of last\ntask last() {\n    echo last\n}\n")
+	var bsrc strings.Builder
+	bsrc.WriteString("# a\n")
+	for i := 0; i < 120000; i++ {
+		bsrc.WriteString("A:=\"b\"\n")
+	}
+	countHash := func(t string) int {
+		n := 0
+		for _, l := range strings.Split(t, "\n") {
+			if strings.HasPrefix(strings.TrimSpace(l), "#") {
+				n++
+			}
+		}
+		return n
+	}
+	// (C) CRLF line ends and one line of 70,000 characters (a pasted certificate) in the middle
+	csrc := "NAME := \"n\"\r\n\r\n# doc of first\r\ntask first() {\r\n    echo first\r\n}\r\n\r\nBLOB := \"" + strings.Repeat("A1b2", 17500) + "\"\r\n\r\n# doc of last\r\ntask last() {\r\n    echo last\r\n}\r\n"
+	for name, src := range map[string]string{"big-file-A(1.2MiB,20003-comments)": a.String(), "big-file-B(0.8MiB-compact,120000-assignments)": bsrc.String(), "big-file-C(CRLF,one-line-of-70000-characters)": csrc} {
+		proj := filepath.Join(tmp, "big")
+		os.RemoveAll(proj)
+		os.MkdirAll(proj, 0o755)
+		os.WriteFile(filepath.Join(proj, "spokfile"), []byte(src), 0o644)
+		run := func() error {
+			cmd := exec.Command(spok, "--fmt")
+			cmd.Dir = proj
+			cmd.Env = []string{"HOME=" + tmp, "PATH=/usr/bin:/bin"}
+			return cmd.Run()
+		}
+		if err := run(); err != nil {
+			st.Features["fmt_cli_refused"]++
+			continue
+		}
+		st.Features["fmt_cli_big_files"]++
+		got, _ := os.ReadFile(filepath.Join(proj, "spokfile"))
+		tag := hx(name)
+		if c0, c1 := countHash(src), countHash(string(got)); c0 != c1 || (strings.Contains(src, "# doc of last") && !strings.Contains(string(got), "# doc of last\ntask last(")) {
+			st.OracleFail["C15"]++
+			fmt.Fprintf(bo, "C15 %s a spokfile of %d bytes with %d comment lines: after `spok --fmt` the file has %d bytes and %d comment lines\n", tag, len(src), c0, len(got), c1)
+		}
+		w, g := parseOnce(src), parseOnce(string(got))
+		if w.err == nil && (g.err != nil || sem(g.tree) != sem(w.tree)) {
+			st.OracleFail["C07"]++
+			fmt.Fprintf(bo, "C07 %s a spokfile of %d bytes: the %d bytes written by `spok --fmt` do not define the same variables and tasks\n", tag, len(src), len(got))
+		}
+		if err := run(); err != nil {
+			st.OracleFail["C11"]++
+			fmt.Fprintf(bo, "C11 %s a spokfile of %d bytes: `spok --fmt` a second time failed on the %d bytes the first one wrote: %v\n", tag, len(src), len(got), err)
+		} else if got2, _ := os.ReadFile(filepath.Join(proj, "spokfile")); string(got2) != string(got) {
+			st.OracleFail["C11"]++
+			fmt.Fprintf(bo, "C11 %s a spokfile of %d bytes: `spok --fmt` once leaves %d bytes, twice leaves %d bytes\n", tag, len(src), len(got), len(got2))
 		}
 	}
 }
